@@ -102,6 +102,9 @@ func genVest(g *Gen, n int) {
 		}
 		var pools []gPool
 		var cvas []string
+		if g.chance(0.2) {
+			g.emit("v.updateDenom %s %s", g.pick("gov", "gov", "other", "garbage"), g.pick("uc4e", "uc4e", "uvest", "!", "%e"))
+		}
 		if g.chance(0.15) {
 			// a (genesis-style) pool whose owner is a blocked module address: its withdrawal transfer fails
 			bo := authtypes.NewModuleAddress(g.pick("fee_collector", "distribution", "cfeminter")).String()
@@ -245,6 +248,9 @@ func genVest(g *Gen, n int) {
 				g.count("op/split")
 			case 12:
 				g.emit("v.q.summary %d", g.intn(2))
+				if g.chance(0.5) {
+					g.emit("v.updateDenom %s %s", g.pick("gov", "gov", "other", "empty"), g.pick("uc4e", "uvest", "!", "%e", "ab"))
+				}
 			default:
 				if len(cvas) > 0 {
 					a := cvas[g.intn(len(cvas))]
